@@ -195,19 +195,17 @@ class TokSpec:
         c = rng.random()
         if self.kind == 'qgram' and c < 0.4:
             self.qval = rng.choice([q for q in (1, 2, 3) if q != self.qval])
-            self.obj.set_qval(self.qval)
-            return 'set_qval(%d)' % self.qval
-        if self.kind == 'qgram' and c < 0.6:
+            self.last_reconf = ('set_qval', self.qval)
+        elif self.kind == 'qgram' and c < 0.6:
             self.padding = not self.padding
-            self.obj.set_padding(self.padding)
-            return 'set_padding(%s)' % self.padding
-        if self.kind == 'delim' and c < 0.5:
+            self.last_reconf = ('set_padding', self.padding)
+        elif self.kind == 'delim' and c < 0.5:
             self.delims = rng.choice([[','], [' '], [',', ' '], ['-']])
-            self.obj.set_delim_set(self.delims)
-            return 'set_delim_set(%r)' % (self.delims,)
-        new = not bool(self.obj.get_return_set())
-        self.obj.set_return_set(new)
-        return 'set_return_set(%s)' % new
+            self.last_reconf = ('set_delim_set', self.delims)
+        else:
+            self.last_reconf = ('set_return_set', not bool(self.obj.get_return_set()))
+        getattr(self.obj, self.last_reconf[0])(self.last_reconf[1])
+        return '%s(%r)' % self.last_reconf
 
     def tokens(self, s, mode):
         old = self.obj.get_return_set()
